@@ -433,6 +433,10 @@ def project_mkdir2(res, case_spec):
     init["paths"] = [by_proc[pi][0][1]["path"].split("/") for pi in range(procs)]
     ids = [i["id"] for i in res["init"]["inodes"]]
     init["rid"] = max(ids + [4]) + 1
+    emulated = not case_spec.get("feat", {}).get("openat2", True)
+    if emulated and procs != 1:
+        return None
+    init["d2"] = 0 if emulated else 1
     out = [init]
     outs = res.get("out") or []
     for e in res.get("events", []):
@@ -469,6 +473,8 @@ def project_mkdir2(res, case_spec):
             s.update(nr="fstat", d1=e.get("dfd_id", 0))
         elif nr == "readlinkat" and e.get("dfd_class") == "proc":
             s.update(nr="dpath")
+        elif nr == "readlinkat" and e.get("dfd_class") == "tree":
+            s.update(nr="readlink", d1=e.get("dfd_id", 0))
         else:
             continue
         out.append(s)
